@@ -72,8 +72,13 @@ def oracle(ctx, stream, case_lines, rep):
     g = os.path.join(ctx.work, "%s.gen.ops" % stream)
     if os.path.exists(g):
         cands.append(g)
-    for ops in cands:
+    known = {k.get("fingerprint") for k in ctx.known if k.get("status") == "known"}
+    for n, ops in enumerate(cands):
         fails = run_oracle(ctx, stream, ops)
+        if fails and n > 0:
+            # searching everything generated: an already known finding does not explain this mismatch
+            report(ctx, stream, [f for f in fails if f[0] in known], rep)
+            fails = [f for f in fails if f[0] not in known]
         if fails:
             clause, v, cops = fails[0]
             report(ctx, stream, fails[1:], rep)
